@@ -98,3 +98,139 @@ def mk_transfer(which):
 _t_c02 = tasks
 def tasks(tier):
     return _t_c02(tier) + [('transfer_keypair', mk_transfer('keypair')), ('transfer_pda', mk_transfer('pda'))]
+
+
+# ---------------------------------------------------------------- C02.g: bank-level operations that are not balance operations never move the share totals
+NON_BALANCE_WRITERS = [
+    ('socialize_loss', r'bank\.rs[^>]*>::socialize_loss$', []),
+    ('accrue_interest', r'bank\.rs[^>]*>::accrue_interest$', [r'calc_interest_rate_accrual_state_changes', r'create_interest_rate_calculator', r'emit|Event']),
+    ('update_bank_cache', r'bank\.rs[^>]*>::update_bank_cache$', [r'calc_interest_rate$', r'create_interest_rate_calculator$']),
+    ('update_cache_price', r'bank\.rs[^>]*>::update_cache_price$', []),
+    ('configure', r'bank\.rs[^>]*>::configure$', [r'bank_config::<impl[^>]*>::validate$|BankConfigImpl>::validate$', r'InterestRateConfigImpl>::update$|interest_rate::<impl[^>]*>::update$']),
+    ('configure_unfrozen_fields_only', r'bank\.rs[^>]*>::configure_unfrozen_fields_only$', []),
+]
+
+
+def mk_totals_frame(name, rx, opaque):
+    def t(world):
+        eng = world.engine(merge=True, opaque=opaque)
+        f = world.fn(rx)
+        args = [eng.ex.fresh(ty, 'bank' if i == 0 else 'x%d' % i) for i, (_, ty) in enumerate(f.params)]
+        res = eng.run_fn(f, args)
+        ob = Ob(f'C02.g.{name}', f'Bank::{name} (not a balance operation) never changes total_asset_shares / total_liability_shares or the position counters, on any returning path: '
+                'only the paired balance/bank updates of the wrappers move the totals', [f.name], 'loop-free; state-merged; every returning path (Ok and Err)'); ob.paths = len(res)
+        FR = ['total_asset_shares', 'total_liability_shares', 'lending_position_count', 'borrowing_position_count']
+        for r in returned(res):
+            if ob.witness(eng, r, []) is False: continue
+            b1 = r['roots'][0]
+            for n in FR:
+                cur = ev(fget(eng, b1, 'Bank', n)); init = fsym('bank*', 'Bank', n)
+                if cur.eq(init): ob.queries += 1; ob.unsat += 1; continue
+                ob.prove(eng, r, [], cur == init, f'{n} is not written', role='totals-frame:' + n)
+        ob.need_witness()
+        return [ob]
+    return t
+
+
+_t_c02g = tasks
+def tasks(tier):
+    return _t_c02g(tier) + [(f'totals_frame:{n}', mk_totals_frame(n, rx, op)) for n, rx, op in NON_BALANCE_WRITERS]
+
+
+# ---------------------------------------------------------------- C02.e: closed world of writers (auxiliary MIR scan - the premise of the induction, not a solver query)
+def _strip_ref(ty):
+    ty = ty.strip()
+    ty = re.sub(r"^&('\w+ )?(mut )?", '', ty)
+    m = re.match(r'^(std::boxed::)?Box<(.*)>$', ty)
+    return m.group(2) if m else ty
+
+
+def _place_type(p, loc):
+    """type of a MIR place expression, from the type annotations rustc prints on field projections"""
+    p = p.strip()
+    if re.match(r'^_\d+$', p): return loc.get(p)
+    if p.endswith(']'):
+        d = 0
+        for i in range(len(p) - 1, -1, -1):
+            if p[i] == ']': d += 1
+            elif p[i] == '[':
+                d -= 1
+                if d == 0:
+                    t = _place_type(p[:i], loc)
+                    m = re.match(r'^\[(.*); [^;]*\]$', t.strip()) if t else None
+                    m2 = re.match(r'^\[(.*)\]$', t.strip()) if t else None
+                    return (m or m2).group(1) if (m or m2) else None
+        return None
+    if p.startswith('(') and p.endswith(')'):
+        inner = p[1:-1]
+        if inner.startswith('*'):
+            t = _place_type(inner[1:], loc); return _strip_ref(t) if t else None
+        m = re.match(r'^(.*)\.(\d+): (.*)$', inner, re.S)
+        if m: return m.group(3)
+        m = re.match(r'^(.*) as (\w+)$', inner)
+        if m: return _place_type(m.group(1), loc)
+    return None
+
+
+def _short_ty(t):
+    return re.sub(r'<.*', '', (t or '?').strip()).split('::')[-1]
+
+
+def scan_writers(world, crates=('marginfi', 'typecrate')):
+    """{(struct, field or '*'): {function names}} for every MIR assignment whose destination is a tracked field or a whole tracked struct"""
+    TR = {'Bank': ['total_asset_shares', 'total_liability_shares'], 'Balance': ['asset_shares', 'liability_shares']}
+    WHOLE = ('Bank', 'Balance', 'LendingAccount')
+    found = {}
+    for crate in crates:
+        m = world.load(crate)
+        for name, f in m.fns.items():
+            loc = dict(f.params); loc.update(f.locals)
+            for bb, stmts in f.blocks.items():
+                for s in stmts:
+                    if ' = ' not in s or s.startswith(('_', 'StorageLive', 'StorageDead', 'assert', 'switchInt', 'goto', 'return', 'drop')) and not re.match(r'^_\d+\[', s): continue
+                    lhs = s.split(' = ', 1)[0].strip()
+                    if re.match(r'^_\d+$', lhs): continue
+                    mm = re.match(r'^\((.*)\.(\d+): ([^:]*(::[^:]*)*)\)$', lhs, re.S)
+                    if mm and not lhs.startswith('(*'):
+                        owner = _short_ty(_place_type(mm.group(1), loc))
+                        if owner in TR:
+                            k = int(mm.group(2))
+                            fld = STRUCTS[owner][k] if k < len(STRUCTS[owner]) else str(k)
+                            if fld in TR[owner]: found.setdefault((owner, fld), set()).add(name)
+                    t = _short_ty(_place_type(lhs, loc))
+                    if t in WHOLE: found.setdefault((t, '*'), set()).add(name)
+    return found
+
+
+EXPECTED_WRITERS = {
+    ('Bank', 'total_asset_shares'): [r'state::bank::<impl[^>]*>::change_asset_shares$'],
+    ('Bank', 'total_liability_shares'): [r'state::bank::<impl[^>]*>::change_liability_shares$'],
+    ('Balance', 'asset_shares'): [r'state::marginfi_account::<impl[^>]*>::change_asset_shares$'],
+    ('Balance', 'liability_shares'): [r'state::marginfi_account::<impl[^>]*>::change_liability_shares$'],
+    ('Balance', '*'): [r'state::marginfi_account::<impl[^>]*>::close$', r'state::marginfi_account::<impl[^>]*>::find_or_create$', r'::empty_deactivated$', r'::sort_balances'],
+    ('Bank', '*'): [r'lending_pool_add_bank(_permissionless|_with_seed|_kamino|_drift|_solend)?$', r'lending_pool_clone_bank$', r'<impl[^>]*>::new$'],
+    ('LendingAccount', '*'): [r'transfer_to_new_account(_pda)?$', r'MarginfiAccount[^:]*>::initialize$|<impl[^>]*>::initialize$'],
+}
+
+
+def t_writers(world):
+    ob = Ob('C02.e', 'closed world of writers: in the MIR of the program and the type crate, share totals and position shares are assigned only inside Bank::change_*_shares / Balance::change_*_shares, '
+            'whole positions only by Balance::close / find_or_create / empty_deactivated, whole banks only by the add-bank initialisers, whole lending accounts only by account initialisation / migration',
+            [], 'auxiliary scan of every MIR assignment statement of the two crates (the premise of the per-operation induction; not a solver query); an unexpected writer makes the property UNDECIDED (exit 2) until it is classified')
+    found = scan_writers(world)
+    ob.paths = sum(len(v) for v in found.values())
+    for key, exp in EXPECTED_WRITERS.items():
+        got = found.get(key, set())
+        if key[1] != '*' and not got: ob.fail(f'no writer of {key[0]}.{key[1]} found: the scan no longer understands the MIR'); continue
+        for fn_ in sorted(got):
+            ob.queries += 1
+            if any(re.search(rx, fn_) for rx in exp): ob.unsat += 1
+            else: ob.fail(f'unclassified writer of {key[0]}.{key[1]}: {fn_[-120:]}')
+    ob.witness_sat = 1
+    ob.notes.append('writers found: ' + '; '.join(f'{k[0]}.{k[1]}: {len(v)}' for k, v in sorted(found.items())))
+    return [ob]
+
+
+_t_c02e = tasks
+def tasks(tier):
+    return _t_c02e(tier) + [('writers', t_writers)]
